@@ -71,6 +71,7 @@ class BatcherRoles:
         self.call = p.func(FILE, f'{cls.qualname}.__call__')
         gc = build(self.call, p, inline_methods=True)
         self.gcall = gc
+        self._declare_nonnull = lambda: None
         # RET: dict attribute subscripted in __call__
         self.ret = None
         for n in gc.nodes:
@@ -117,6 +118,18 @@ class BatcherRoles:
                         info = callee_info(g, n.ast)
                         if info['kind'] == 'package' and self.assemble in info.get('scopes', []):
                             self.dispatch = f
+        if self.ret is not None:
+            # the retention cache only ever receives futures: a value read from it is not None
+            from ..paths import nonnull_expr
+            st_ = [n for f in [s for s in u.functions() if s.enclosing_class() is cls] for n in build(f, p).nodes
+                   if n.kind == 'store_sub' and sattr(build(f, p), n.ast.value) == self.ret]
+            if st_ and all(n.meta.get('value') is not None and (nonnull_expr(gc, n.meta['value']) or (
+                    isinstance(n.meta['value'], ast.Name) and all(
+                        d is not None and d.meta.get('value') is not None and nonnull_expr(gc, d.meta['value'])
+                        for d in (__import__('sa.dataflow', fromlist=['rdefs']).rdefs(gc).reaching(n, n.meta['value'].id) or [None]))))
+                           for n in st_ if n in gc.nodes):
+                gc.__dict__['nonnull_tables'] = {f'self.{self.ret}'}
+                gc.__dict__.pop('_envs_at', None)
         missing = [k for k in ('workq', 'ret', 'process', 'assemble', 'dispatch') if getattr(self, k) is None]
         if missing:
             raise AnalysisError(f'batcher roles not found: {missing}')
@@ -129,7 +142,7 @@ class BatcherRoles:
                               and isinstance(resolve(g, n, n.ast.iter), ast.Call) and self_attr(resolve(g, n, n.ast.iter).func) == 'func')
         self.batchcall_iter = self.batchcall.ast.iter if isinstance(self.batchcall.ast.iter, ast.Call) \
             else resolve(g, self.batchcall, self.batchcall.ast.iter, depth=1)
-        self.func_calls = [n for n in g.nodes if n.kind == 'call' and self_attr(n.ast.func) == 'func']
+        self.func_calls = [n for n in g.nodes if n.kind == 'call' and (self_attr(n.ast.func) == 'func' or self_attr(resolve(g, n, n.ast.func)) == 'func')]
         tgt = self.batchcall.ast.target
         self.kvar = self.rvar = None
         if isinstance(tgt, ast.Tuple) and len(tgt.elts) == 2 and all(isinstance(e, ast.Name) for e in tgt.elts):
@@ -179,6 +192,62 @@ def _future_vars(r: 'BatcherRoles') -> Set[str]:
                    and x.meta['value'].id == nm for x in gc.nodes):
                 out.add(nm)
     return out
+
+
+def option_read(g: CFG, n: Node, e: Optional[ast.AST], attr: str) -> bool:
+    """Is *e* at node *n* a *fresh* read of the public option `self.<attr>`: the attribute itself, or a local
+    assigned from it with no suspension point between that assignment and *n* (the option may be changed by the
+    user while the coroutine is suspended: a value read before an await is a different thing, cf. seeded C10-1)?"""
+    from ..dataflow import rdefs, def_value
+    from ..paths import no_suspension
+    if e is None:
+        return False
+    if self_attr(e) == attr:
+        return True
+    if isinstance(e, ast.Name):
+        ds = rdefs(g).reaching(n, e.id)
+        if not ds or any(d is None for d in ds):
+            return False
+        for d in ds:
+            v = def_value(g, d)
+            if v is None or self_attr(v) != attr:
+                return False
+            if any(x.suspends for x in [d]) or no_suspension(g, [d], [n]) is not None:
+                return False
+        return True
+    return False
+
+
+def is_shared_future(r: 'BatcherRoles', n: Node, e: ast.AST) -> bool:
+    """Does *e* at node *n* (in __call__) denote a future registered in the retention cache: a read of the cache
+    (`RET[k]`, `RET.get(k)`), a future created by this call and stored there, or a local that can only hold such values?"""
+    from ..dataflow import leaves
+    gc = r.gcall
+    names = _future_vars(r)
+    if isinstance(e, ast.Name) and e.id in names:
+        return True
+    stored_pos = set()
+    for x in gc.nodes:
+        if x.kind == 'store_sub' and sattr(gc, x.ast.value) == r.ret and x.meta.get('value') is not None:
+            for lf in leaves(gc, x, x.meta['value']):
+                stored_pos.add((getattr(lf, 'lineno', None), getattr(lf, 'col_offset', None), norm(lf)))
+        st_ = x.meta.get('stmt') if x.kind == 'store_sub' else None
+        if isinstance(st_, ast.Assign) and st_.value is not None and sattr(gc, x.ast.value) == r.ret:
+            stored_pos.add((getattr(st_.value, 'lineno', None), getattr(st_.value, 'col_offset', None), norm(st_.value)))
+    lfs = leaves(gc, n, e)
+    if not lfs:
+        return False
+    for lf in lfs:
+        if isinstance(lf, ast.Subscript) and sattr(gc, lf.value) == r.ret:
+            continue
+        if isinstance(lf, ast.Call) and isinstance(lf.func, ast.Attribute) and lf.func.attr == 'get' and sattr(gc, lf.func.value) == r.ret:
+            continue
+        if (getattr(lf, 'lineno', None), getattr(lf, 'col_offset', None), norm(lf)) in stored_pos:
+            continue
+        if isinstance(lf, ast.Name) and lf.id in names:
+            continue
+        return False
+    return True
 
 
 def _elem_pos(target: ast.AST, e: ast.AST) -> Optional[int]:
@@ -297,8 +366,8 @@ def c04(ctx: Ctx) -> None:
     if not body_completes:
         ctx.violation('C04-B1', 'no completion inside the result loop', where, construct=construct_key(r.process.qualname, 'no completion'))
     # B2
-    isinst = [n for n in body if n.kind == 'branch' and isinstance(n.meta['test'], ast.Call)
-              and norm(resolve(g, n, n.meta['test'])) == f'isinstance({r.rvar}, Exception)']
+    isinst = [n for n in body if n.kind == 'branch'
+              and norm(resolve(g, n, n.meta['test'], keep=(r.rvar,))) == f'isinstance({r.rvar}, Exception)']
     if not isinst:
         ctx.violation('C04-B2', 'no isinstance(result, Exception) branch', where,
                       'yielded Exception instances are returned as values (or values raised)',
@@ -414,12 +483,20 @@ def c04(ctx: Ctx) -> None:
     gc = r.gcall
     rets = [n for n in gc.nodes if n.kind == 'return']
     futvars = _future_vars(r)
+    from ..dataflow import leaves as _lv
     for n in rets:
         v = n.ast.value
-        inner = v.value if isinstance(v, ast.Await) else None
-        if isinstance(inner, ast.Call) and call_name(gc, inner) == 'asyncio.shield' and inner.args:
-            inner = inner.args[0]
-        ok = isinstance(inner, ast.Name) and inner.id in futvars
+        ok = False
+        if v is not None:
+            vals = _lv(gc, n, v)
+            ok = bool(vals)
+            for lf in vals:
+                inner = lf.value if isinstance(lf, ast.Await) else None
+                if isinstance(inner, ast.Call) and call_name(gc, inner) == 'asyncio.shield' and inner.args:
+                    inner = inner.args[0]
+                # the node at which the awaited expression is evaluated: the await node with that position, else the return
+                at = next((x for x in gc.nodes if x.kind == 'await' and (x.ast.lineno, x.ast.col_offset) == (getattr(lf, 'lineno', -1), getattr(lf, 'col_offset', -1))), n)
+                ok = ok and inner is not None and is_shared_future(r, at, inner)
         ctx.check('C04-B7', f'return {norm(v)}', gc.loc(n), ok, 'awaits the future registered under the call\'s key',
                   'a caller does not await its key\'s future', construct=construct_key(r.call.qualname, n.ast))
     # B8
@@ -509,25 +586,23 @@ def c09(ctx: Ctx) -> None:
     shared = _future_vars(r)
     r1_ok = True
     sites = 0
-    hit_edges = [e for x in gc.nodes if x.kind == 'load_sub' and sattr(gc, x.ast.value) == r.ret
-                 for e in gc.succ[x.id] if e.label != 'exc']
+    _lk, _miss, hit_edges, _keys = table_lookups(gc, lambda e: sattr(gc, e) == r.ret)
     on_hit = reach(gc, [], start_edges=hit_edges)
     for n in gc.nodes:
         if n.kind != 'await':
             continue
         v = n.ast.value
         role = 'sharer (hit path)' if n.id in on_hit else 'original caller (miss path)'
-        if isinstance(v, ast.Name) and v.id in shared:
+        if isinstance(v, ast.Call) and call_name(gc, v) == 'asyncio.shield' and v.args and is_shared_future(r, n, v.args[0]):
+            sites += 1
+            ctx.holds('C09-R1', f'await {norm(v)}', gc.loc(n), 'shared future awaited behind shield')
+        elif not isinstance(v, ast.Call) and is_shared_future(r, n, v):
             sites += 1
             r1_ok = False
             ctx.violation('C09-R1', f'await {norm(v)} (bare) by the {role}', gc.loc(n),
                           'cancelling or timing out this caller cancels the future it shares with every caller of the key '
                           '(and the batch later fails on it)', witness=[f'{gc.loc(n)} {norm(parent(n.ast))}'],
-                          construct=construct_key('BATCHER.__call__', norm_locals(parent(n.ast), r.call), role))
-        elif isinstance(v, ast.Call) and call_name(gc, v) == 'asyncio.shield' and v.args and \
-                isinstance(v.args[0], ast.Name) and v.args[0].id in shared:
-            sites += 1
-            ctx.holds('C09-R1', f'await {norm(v)}', gc.loc(n), 'shared future awaited behind shield')
+                          construct=construct_key('BATCHER.__call__', 'bare await of the shared future', role))
     for n in gc.nodes:
         if n.kind == 'call' and isinstance(n.ast.func, ast.Attribute) and n.ast.func.attr == 'cancel' \
                 and isinstance(n.ast.func.value, ast.Name) and n.ast.func.value.id in shared:
@@ -709,7 +784,7 @@ def c10(ctx: Ctx) -> None:
             s.enclosing_function() and s.enclosing_function().enclosing_class() is r.cls)]:
         gg = build(f, p)
         for n in gg.nodes:
-            if n.kind == 'call' and self_attr(n.ast.func) == 'func':
+            if n.kind == 'call' and (self_attr(n.ast.func) == 'func' or self_attr(resolve(gg, n, n.ast.func)) == 'func'):
                 calls_func.append((gg, n))
     if r.sem is None:
         ctx.violation('C10-R3', 'no asyncio.Semaphore is constructed', f'{FILE}:{r.init.lineno}',
@@ -777,8 +852,10 @@ def c10(ctx: Ctx) -> None:
         c = n.ast.value
         inner = c.args[0] if c.args else None
         t = c.args[1] if len(c.args) > 1 else next((k.value for k in c.keywords if k.arg == 'timeout'), None)
+        inner = resolve(g, n, inner) if inner is not None else None
+        cn_ = next((x for x in g.nodes if x.kind == 'call' and x.ast is c), n)
         ok = isinstance(inner, ast.Call) and isinstance(inner.func, ast.Attribute) and inner.func.attr == 'get' and \
-            g.res.path(inner.func.value) == f'self.{r.workq}' and self_attr(t) == 'batch_timeout'
+            g.res.path(inner.func.value) == f'self.{r.workq}' and option_read(g, cn_, t, 'batch_timeout')
         ctx.check('C10-R5', f'{norm(c)}', g.loc(n), ok, 'waits for the queue at most self.batch_timeout',
                   'the bounded wait is not wait_for(queue.get(), self.batch_timeout)', construct=construct_key(r.assemble.qualname, c))
         te = [e for e in g.succ[n.id] if e.label == 'exc' and e.classes and 'TimeoutError' in e.classes and e.dst.kind == 'except']
@@ -876,8 +953,8 @@ def c11(ctx: Ctx) -> None:
     evict_later = []
     for n in g.nodes:
         if n.kind == 'call' and isinstance(n.ast.func, ast.Attribute) and n.ast.func.attr == 'call_later':
-            a = n.ast.args
-            ok = len(a) >= 3 and self_attr(a[0]) == 'retention_timeout' and isinstance(a[1], ast.Attribute) \
+            a = [resolve(g, n, x, keep=tuple(keyv)) for x in n.ast.args]
+            ok = len(a) >= 3 and option_read(g, n, n.ast.args[0], 'retention_timeout') and isinstance(a[1], ast.Attribute) \
                 and a[1].attr == 'pop' and sattr(g, a[1].value) == RET and norm(a[2]) in keyv
             if ok:
                 evict_later.append(n)
@@ -903,9 +980,10 @@ def c11(ctx: Ctx) -> None:
                   witness=render(g, w), construct=construct_key(r.call.qualname, 'exit without eviction'))
     # the branch between immediate and delayed eviction
     for n in g.nodes:
-        if n.kind == 'branch' and isinstance(n.meta['test'], ast.Compare) and any(
-                self_attr(x) == 'retention_timeout' for x in ast.walk(n.meta['test'])):
-            t = n.meta['test']
+        t_res = resolve(g, n, n.meta['test']) if n.kind == 'branch' else None
+        if n.kind == 'branch' and isinstance(t_res, ast.Compare) and any(
+                self_attr(x) == 'retention_timeout' for x in ast.walk(t_res)):
+            t = t_res
             # evaluate the comparison for sample windows: every positive value must go one way, 0 the other
             def ev_(val):
                 try:
@@ -1123,9 +1201,9 @@ def _chains(ctx: Ctx, p) -> None:
         'max_concurrent_batches': lambda: r.sem is not None and isinstance(r.attr_ctor.get(r.sem), ast.Call) and any(
             isinstance(y, ast.Name) and y.id == 'max_concurrent_batches' for y in ast.walk(r.attr_ctor[r.sem])),
         'batch_timeout': lambda: any(n.kind == 'call' and call_name(r.gasm, n.ast) == 'asyncio.wait_for' and len(n.ast.args) > 1
-                                     and self_attr(n.ast.args[1]) == 'batch_timeout' for n in r.gasm.nodes),
+                                     and option_read(r.gasm, n, n.ast.args[1], 'batch_timeout') for n in r.gasm.nodes),
         'retention_timeout': lambda: any(n.kind == 'call' and isinstance(n.ast.func, ast.Attribute) and n.ast.func.attr == 'call_later'
-                                         and n.ast.args and self_attr(n.ast.args[0]) == 'retention_timeout' for n in r.gcall.nodes),
+                                         and n.ast.args and option_read(r.gcall, n, n.ast.args[0], 'retention_timeout') for n in r.gcall.nodes),
     }
     for opt, used in uses.items():
         passed = ctor is not None and ctor_kw is not None and isinstance(ctor_kw.get(opt), ast.Name) and ctor_kw[opt].id == opt
